@@ -360,3 +360,35 @@ M('C15', 'sketchy-apply-tail-on-lowrank', SK, "      g = scaled_lowrank_componen
 M('C15', 'sketchy-apply-ekfac-tail', SK, "      inv_tail = axis_state.inv_tail if not ekfac else axis_state.inv_prev_tail", "      inv_tail = axis_state.inv_tail")
 M('C15', 'chain-skips-state', PX, "    for s, fn in zip(state, args):\n      updates, new_s = fn.update(updates, s, params)", "    for s, fn in zip(state, reversed(args)):\n      updates, new_s = fn.update(updates, s, params)")
 TW('C15', 'twin-lr-negation', OP, "    lr_tx = optax.scale(-1.0 * learning_rate)", "    lr_tx = optax.scale(-learning_rate)")
+
+# ------------------------------------------------------------------ C16
+M('C16', 'sada-alpha-factor', OCO, "  sketch_update_factor = 1.0\n  alpha_update_factor = 1.0\n  lr = hparams.lr\n  eig_inversion = jax.lax.rsqrt", "  sketch_update_factor = 1.0\n  alpha_update_factor = 0.5\n  lr = hparams.lr\n  eig_inversion = jax.lax.rsqrt")
+M('C16', 'sada-inversion-reciprocal', OCO, "  lr = hparams.lr\n  eig_inversion = jax.lax.rsqrt", "  lr = hparams.lr\n  eig_inversion = jnp.reciprocal")
+M('C16', 'table-sada-mapped-to-adafd', OCO, "      Algorithm.S_ADA: _sada(state, hparams),", "      Algorithm.S_ADA: _adafd(state, hparams),")
+M('C16', 'alpha0-one', OCO, "  state['alpha'] = jnp.array(hparams.delta, dtype=jnp.float64)", "  state['alpha'] = jnp.array(1.0, dtype=jnp.float64)")
+M('C16', 'double-squared-escaped-mass', OCO, "  rho = s[-1]\n  s = (s - rho) * (s + rho)", "  s = s**2\n  rho = s[-1]\n  s = s - rho")
+M('C16', 'safe-invert-cutoff', OCO, "  eps = 0.0\n", "  eps = jnp.finfo(jnp.float32).eps\n")
+M('C16', 'outside-sketch-other-inversion', OCO, "    inv_alpha = safe_invert(alpha)", "    inv_alpha = safe_invert(alpha, inversion=jnp.reciprocal)")
+M('C16', 'outside-sketch-sign', OCO, "    outside_sketch_g = g - mm(P.T, mm(P, g))", "    outside_sketch_g = g + mm(P.T, mm(P, g))")
+M('C16', 'adagrad-guard-dropped', OCO, "  rsqrt = jax.lax.rsqrt(jnp.where(state['diag_h'] == 0, 1, state['diag_h']))", "  rsqrt = jax.lax.rsqrt(state['diag_h'])")
+M('C16', 'ogd-old-t', OCO, "  state['t'] += 1.0\n  state['w'] -= hparams.lr * grad * jax.lax.rsqrt(state['t'] + hparams.delta)", "  state['w'] -= hparams.lr * grad * jax.lax.rsqrt(state['t'] + hparams.delta)\n  state['t'] += 1.0")
+M('C16', 'ada-dispatch-to-fd', OCO, "  elif hparams.algorithm == Algorithm.ADA:\n    assert hparams.sketch_size == 0, hparams.sketch_size\n    init, update = _diag_adagrad_init_fn, _diag_adagrad_update_fn", "  elif hparams.algorithm == Algorithm.ADA:\n    assert hparams.sketch_size == 0, hparams.sketch_size\n    init, update = _diag_adagrad_init_fn, _ogd_update_fn")
+M('C16', 'adafd-d', OCO, "    d = e / (alpha + e)", "    d = e / (alpha + e * e)")
+TW('C16', 'twin-deflate-expanded', OCO, "  s = (s - rho) * (s + rho)", "  s = s * s - rho * rho")
+
+# ------------------------------------------------------------------ C17
+_TOPUP = "        if realloc[key] < dim:\n          realloc[key] += 1\n          extra -= 1\n        if extra <= 0:\n          break"
+M('C17', 'F9-leftover-uncharged', RA, _TOPUP, "        realloc[key] = min(realloc[key] + 1, dim)\n        extra = extra - 1 if realloc[key] + 1 < dim else extra\n        if extra <= 0:\n          break")
+M('C17', 'topup-break-strict', RA, _TOPUP, _TOPUP.replace("if extra <= 0:", "if extra < 0:"))
+M('C17', 'topup-guard-le', RA, _TOPUP, _TOPUP.replace("if realloc[key] < dim:", "if realloc[key] <= dim:"))
+M('C17', 'topup-no-break', RA, _TOPUP, "        if realloc[key] < dim:\n          realloc[key] += 1\n          extra -= 1")
+M('C17', 'topup-double-rank', RA, _TOPUP, _TOPUP.replace("realloc[key] += 1", "realloc[key] += 2"))
+M('C17', 'budget-assert-removed', RA, "    assert allocated <= group_resource, (group_resource, allocated)\n", "")
+M('C17', 'budget-not-reset', RA, "    _, _, group_resource = grp_info(dim)\n    assert allocated", "    group_resource = group_resource + allocated\n    assert allocated")
+M('C17', 'F19-truthiness-guard', RA, "        unit_rsc = group_resource / total_score if total_score > 0 else 0.0", "        unit_rsc = group_resource / total_score if total_score else 0.0")
+M('C17', 'regular-layer-undercharged', RA, "        group_resource -= (rd(pair[1] * unit_rsc) - 1)", "        group_resource -= (rd(pair[1] * unit_rsc) - 2)")
+M('C17', 'rd-no-plus-one', RA, "    return int(x // 1) + 1", "    return int(x // 1)")
+M('C17', 'groups-by-rank', RA, "      key = carry['eigvecs'].shape[0]", "      key = carry['eigvals'].shape[0]")
+M('C17', 'budget-per-group-plus-one', RA, "    group_resource = group_size * sketchy_rank", "    group_resource = group_size * (sketchy_rank + 1)")
+M('C17', 'no-unit-reservation', RA, "    group_resource -= group_size\n    total_score", "    total_score")
+TW('C17', 'twin-topup-reordered-test', RA, _TOPUP, "        if dim > realloc[key]:\n          extra -= 1\n          realloc[key] += 1\n        if extra <= 0:\n          break")
